@@ -6,102 +6,32 @@ set_option linter.unusedSimpArgs false
 namespace DFV.C05
 open DFV DFV.C04
 
-theorem swapChar_invol (da db : String) (ca cb : Char) (ha : da.toList = [ca]) (hb : db.toList = [cb]) (c : Char) :
-    swapChar da db (swapChar da db c) = c := by
-  rw [swapChar_spec da db ca cb ha hb, swapChar_spec da db ca cb ha hb]
-  by_cases h1 : c = ca
-  · subst h1
-    by_cases h3 : cb = c
-    · simp [h3]
-    · simp [h3]
-  · by_cases h2 : c = cb
-    · subst h2; simp [h1]
-    · simp [h1, h2]
-
-theorem map_swapChar_invol (da db : String) (ca cb : Char) (ha : da.toList = [ca]) (hb : db.toList = [cb]) (l : List Char) :
-    (l.map (swapChar da db)).map (swapChar da db) = l := by
-  rw [List.map_map]
-  conv_rhs => rw [← List.map_id l]
-  apply List.map_congr_left
-  intro c _
-  exact swapChar_invol da db ca cb ha hb c
-
-theorem filter_two (a b c : List Char) (x : Char) : 2 ≤ ((a ++ x :: b ++ x :: c).filter (· = x)).length := by
-  simp [List.filter_append, List.filter_cons]; omega
-
-/-- a string in which every character occurs once is neither of the two words, however its
-characters are renamed -/
-theorem not_word_of_distinct (l : List Char) (φ : Char → Char)
-    (hall : ∀ c ∈ l, (l.filter (· = c)).length = 1) :
-    l ≠ ("neumann".toList).map φ ∧ l ≠ ("dirichlet".toList).map φ := by
-  constructor
-  · intro h
-    have e : ("neumann".toList).map φ = [] ++ φ 'n' :: [φ 'e', φ 'u', φ 'm', φ 'a'] ++ φ 'n' :: [φ 'n'] := by
-      have : "neumann".toList = ['n', 'e', 'u', 'm', 'a', 'n', 'n'] := by decide
-      rw [this]; rfl
-    rw [e] at h
-    have h1 := hall (φ 'n') (by rw [h]; simp)
-    have h2 := filter_two [] [φ 'e', φ 'u', φ 'm', φ 'a'] [φ 'n'] (φ 'n')
-    rw [← h] at h2
-    omega
-  · intro h
-    have e : ("dirichlet".toList).map φ = [φ 'd'] ++ φ 'i' :: [φ 'r'] ++ φ 'i' :: [φ 'c', φ 'h', φ 'l', φ 'e', φ 't'] := by
-      have : "dirichlet".toList = ['d', 'i', 'r', 'i', 'c', 'h', 'l', 'e', 't'] := by decide
-      rw [this]; rfl
-    rw [e] at h
-    have h1 := hall (φ 'i') (by rw [h]; simp)
-    have h2 := filter_two [φ 'd'] [φ 'r'] [φ 'c', φ 'h', φ 'l', φ 'e', φ 't'] (φ 'i')
-    rw [← h] at h2
-    omega
+/-- an exchanged `bc` is not empty -/
+theorem swapped_not_empty (bc da db : String) (w3 : bc ≠ "") : String.ofList (bc.toList.map (swapChar da db)) ≠ "" := by
+  intro h
+  have := congrArg String.toList h
+  rw [String.toList_ofList] at this
+  have hnil : ("" : String).toList = [] := by decide
+  rw [hnil] at this
+  have : bc.toList = [] := by simpa using this
+  apply w3
+  rw [← String.toList_inj, this, hnil]
 
 /-- turning `bc` twice gives `bc` back -/
 theorem rotBc1_invol (dims : List String) (bc da db : String) (hok : Mesh.bcOk dims bc = true) :
     rotBc1 (rotBc1 bc da db) da db = bc := by
-  by_cases hsw : (!(bc == "neumann" || bc == "dirichlet" || bc == "") && da.toList.length == 1 && db.toList.length == 1) = true
-  · have e1 : rotBc1 bc da db = String.ofList (bc.toList.map (swapChar da db)) := by
-      unfold rotBc1; rw [if_pos hsw]
-    simp only [Bool.and_eq_true, Bool.not_eq_true', Bool.or_eq_false_iff, beq_eq_false_iff_ne, beq_iff_eq, ne_eq] at hsw
-    obtain ⟨⟨⟨⟨w1, w2⟩, w3⟩, s1⟩, s2⟩ := hsw
+  by_cases hsw : swapCond bc da db = true
+  · obtain ⟨w1, w2, w3, s1, s2, l1, l2⟩ := swapCond_parts hsw
     obtain ⟨ca, hca⟩ := single_of_length _ s1
     obtain ⟨cb, hcb⟩ := single_of_length _ s2
-    have hall : ∀ c ∈ bc.toList, (bc.toList.filter (· = c)).length = 1 := by
-      unfold Mesh.bcOk at hok
-      simp only [Bool.or_eq_true, decide_eq_true_eq, w1, w2, w3, false_or, List.all_eq_true, Bool.and_eq_true] at hok
-      intro c hc
-      exact (hok c hc).2
     have hinv := map_swapChar_invol da db ca cb hca hcb
-    obtain ⟨n1, n2⟩ := not_word_of_distinct bc.toList (swapChar da db) hall
-    have c1 : ¬ (String.ofList (bc.toList.map (swapChar da db)) = "neumann") := by
-      intro h
-      apply n1
-      have := congrArg String.toList h
-      rw [String.toList_ofList] at this
-      rw [← this, hinv]
-    have c2 : ¬ (String.ofList (bc.toList.map (swapChar da db)) = "dirichlet") := by
-      intro h
-      apply n2
-      have := congrArg String.toList h
-      rw [String.toList_ofList] at this
-      rw [← this, hinv]
-    have c3 : ¬ (String.ofList (bc.toList.map (swapChar da db)) = "") := by
-      intro h
-      have := congrArg String.toList h
-      rw [String.toList_ofList] at this
-      have hnil : ("" : String).toList = [] := by decide
-      rw [hnil] at this
-      have : bc.toList = [] := by simpa using this
-      apply w3
-      rw [← String.toList_inj, this, hnil]
-    rw [e1]
-    unfold rotBc1
-    have hsw2 : (!(String.ofList (bc.toList.map (swapChar da db)) == "neumann" ||
-        String.ofList (bc.toList.map (swapChar da db)) == "dirichlet" ||
-        String.ofList (bc.toList.map (swapChar da db)) == "") && da.toList.length == 1 && db.toList.length == 1) = true := by
-      simp only [Bool.and_eq_true, Bool.not_eq_true', Bool.or_eq_false_iff, beq_eq_false_iff_ne, beq_iff_eq, ne_eq]
-      exact ⟨⟨⟨⟨c1, c2⟩, c3⟩, s1⟩, s2⟩
-    rw [if_pos hsw2, String.toList_ofList, hinv, String.ofList_toList]
-  · have e1 : rotBc1 bc da db = bc := by unfold rotBc1; rw [if_neg hsw]
-    rw [e1, e1]
+    have hw := swapped_not_word dims bc da db hok hsw
+    unfold isWord at hw
+    simp only [Bool.or_eq_false_iff, beq_eq_false_iff_ne, ne_eq] at hw
+    have hsw2 : swapCond (String.ofList (bc.toList.map (swapChar da db))) da db = true :=
+      swapCond_of hw.1 hw.2 (swapped_not_empty bc da db w3) s1 s2 l1 l2
+    rw [rotBc1_swap _ _ _ hsw, rotBc1_swap _ _ _ hsw2, String.toList_ofList, hinv, String.ofList_toList]
+  · rw [rotBc1_noswap _ _ _ hsw, rotBc1_noswap _ _ _ hsw]
 
 /-- the parts of an accepted `Mesh.rotate90` -/
 theorem rotMesh_struct (f : Fld) (m' : Mesh) (a b : Nat) (hd : DimsOk f) (ha : a < f.mesh.ndim) (hb : b < f.mesh.ndim)
@@ -143,34 +73,12 @@ theorem rotMesh_struct (f : Fld) (m' : Mesh) (a b : Nat) (hd : DimsOk f) (ha : a
 theorem rotBc1_not_word (dims : List String) (bc da db : String) (hok : Mesh.bcOk dims bc = true)
     (w1 : bc ≠ "neumann") (w2 : bc ≠ "dirichlet") :
     rotBc1 bc da db ≠ "neumann" ∧ rotBc1 bc da db ≠ "dirichlet" := by
-  by_cases hsw : (!(bc == "neumann" || bc == "dirichlet" || bc == "") && da.toList.length == 1 && db.toList.length == 1) = true
-  · have e1 : rotBc1 bc da db = String.ofList (bc.toList.map (swapChar da db)) := by
-      unfold rotBc1; rw [if_pos hsw]
-    simp only [Bool.and_eq_true, Bool.not_eq_true', Bool.or_eq_false_iff, beq_eq_false_iff_ne, beq_iff_eq, ne_eq] at hsw
-    obtain ⟨⟨⟨⟨_, _⟩, w3⟩, s1⟩, s2⟩ := hsw
-    obtain ⟨ca, hca⟩ := single_of_length _ s1
-    obtain ⟨cb, hcb⟩ := single_of_length _ s2
-    have hall : ∀ c ∈ bc.toList, (bc.toList.filter (· = c)).length = 1 := by
-      unfold Mesh.bcOk at hok
-      simp only [Bool.or_eq_true, decide_eq_true_eq, w1, w2, w3, false_or, List.all_eq_true, Bool.and_eq_true] at hok
-      intro c hc
-      exact (hok c hc).2
-    have hinv := map_swapChar_invol da db ca cb hca hcb
-    obtain ⟨n1, n2⟩ := not_word_of_distinct bc.toList (swapChar da db) hall
-    rw [e1]
-    constructor
-    · intro h
-      apply n1
-      have := congrArg String.toList h
-      rw [String.toList_ofList] at this
-      rw [← this, hinv]
-    · intro h
-      apply n2
-      have := congrArg String.toList h
-      rw [String.toList_ofList] at this
-      rw [← this, hinv]
-  · have e1 : rotBc1 bc da db = bc := by unfold rotBc1; rw [if_neg hsw]
-    rw [e1]; exact ⟨w1, w2⟩
+  by_cases hsw : swapCond bc da db = true
+  · have hw := swapped_not_word dims bc da db hok hsw
+    unfold isWord at hw
+    simp only [Bool.or_eq_false_iff, beq_eq_false_iff_ne, ne_eq] at hw
+    rw [rotBc1_swap _ _ _ hsw]; exact hw
+  · rw [rotBc1_noswap _ _ _ hsw]; exact ⟨w1, w2⟩
 
 /-- **a quarter turn preserves well-formedness** of the mesh and of the array shapes -/
 theorem meshWf_rot (f R : Fld) (a b : Nat) (wf : MeshWf f) (tw : TurnWf f a b) (ha : a < f.mesh.ndim) (hb : b < f.mesh.ndim)
@@ -229,12 +137,10 @@ theorem turnWf_rot (f R : Fld) (a b : Nat) (wf : MeshWf f) (tw : TurnWf f a b) (
     TurnWf R a b := by
   have hinv := rotBc1_invol f.mesh.region.dims f.mesh.bc (f.mesh.region.dims.getD a "") (f.mesh.region.dims.getD b "") wf.bc_ok
   refine ⟨?_, ?_, ?_⟩
-  · rcases tw.turns with ⟨s1, s2, w1, w2⟩ | hp
+  · rcases tw.turns with ⟨s1, s2, l1, l2⟩ | hp
     · left
-      rw [hr.dims, hbc]
-      obtain ⟨n1, n2⟩ := rotBc1_not_word f.mesh.region.dims f.mesh.bc (f.mesh.region.dims.getD a "")
-        (f.mesh.region.dims.getD b "") wf.bc_ok w1 w2
-      exact ⟨s1, s2, n1, n2⟩
+      rw [hr.dims]
+      exact ⟨s1, s2, l1, l2⟩
     · right
       rw [hr.per_a, hr.per_b, hp]
   · rw [hr.dims, hbc, hinv]; exact wf.bc_lower
